@@ -523,6 +523,23 @@ class Gen:
             a = self.pick()
             if a is None:
                 return False
+            if r.random() < 0.5 and ref.a[a].n > 0:
+                # a copy that differs from the original in exactly one byte (any position, also in the last element)
+                h = self.free_handle()
+                if h is None:
+                    return False
+                x = ref.a[a]
+                dyn = r.randrange(2)
+                self.emit(["init", dyn, H(h), H(x.e)])
+                self.emit(["copy", H(h), H(a)])
+                ok = self.emit(["isequal", H(a), H(h)])
+                i = r.choice([0, x.n - 1, r.randrange(x.n)])
+                el = bytearray(ref.rd(a, i * x.e, x.e))
+                el[r.choice([0, x.e - 1, r.randrange(x.e)])] ^= r.choice([1, 0x80, 0xff])
+                self.emit(["set", H(h), H(i), hb(bytes(el))])
+                self.emit(["isequal", H(h), H(a)])
+                self.emit(["destroy", H(h), "0"] if dyn else ["drop", H(h)])
+                return ok
             b = self.pick(lambda h, x: x.e == ref.a[a].e) if r.random() < 0.8 else self.pick()
             return self.emit(["isequal", H(a), H(b)])
         if k == "bsearch":
@@ -694,7 +711,10 @@ def run(ctx):
         hists.append(gen_history(ctx.rng, ctx.quick))
     text = case_text(hists)
     env = dict(os.environ, ASAN_OPTIONS="detect_leaks=0:abort_on_error=0", UBSAN_OPTIONS="print_stacktrace=1")
-    rc, impl, err = ctx.run_lines([exe], text, timeout=1500, env=env)
+    # a call that does not return (endless loop) ends the output early: reported with the history that hangs
+    rc, impl, err = ctx.run_lines([exe], text, timeout=(150 if ctx.quick else 1500), env=env)
+    if rc == 124:
+        err += "\n[the harness did not finish within the time limit: the call after the last complete output line does not return]"
     impl = [l for l in impl if l != ""]
     try:
         mexe = ctx.model("c08")
